@@ -87,5 +87,7 @@ def P : Params :=
 
 def S : Nat := 40960
 def maxRemove : Nat := Facts.c15_maxFilesToRemove.toNat
+def defaultHeadLimit : Nat := Facts.c15_defaultHeadSizeLimit.toNat
+def defaultTotalLimit : Nat := Facts.c15_defaultTotalSizeLimit.toNat
 
 end Tmv.Wal.Inst
